@@ -116,21 +116,29 @@ const (
 	lvlAuthorize      = iota // Context.Authorize on a route obtained from the real router
 	lvlHandler               // full handler chain
 	lvlAuthenticators        // RouteAuthenticators.Authenticate called directly on the route (no authorizer involved)
+	lvlAuthenticator1        // (*RouteAuthenticator).Authenticate of the single alternative of a one-alternative structure, called directly
 	nLvl
 )
 
-var lvlName = [nLvl]string{"authorize", "handler", "route-authenticators"}
+var lvlName = [nLvl]string{"authorize", "handler", "route-authenticators", "route-authenticator-singular"}
 
 // how the requirement structure is declared
 const (
 	declOp         = iota // on the operation; no global security
 	declOpOverAnon        // on the operation; the description has global security [anonymous] that must not leak in
 	declGlobal            // globally; the operation inherits
-	declNone              // globally; the operation overrides with an empty list (declares none: outside the property, recorded only)
+	declNone              // globally; the operation overrides with an empty list: it declares no requirements
+	declAbsent            // no security key anywhere for the operation (another operation of the API declares the structure)
 	nDecl
 )
 
-var declName = [nDecl]string{"op", "op-over-global-anon", "global", "global-overridden-empty"}
+var declName = [nDecl]string{"op", "op-over-global-anon", "global", "global-overridden-empty", "no-security-key"}
+
+// noRequirements: the operation under test declares none. The statement speaks about operations that do; the
+// complement (decision of the lead after mutation triage) is that the security layer is then transparent:
+// Authorize answers (nil, nil, nil) or admits with a nil principal, nothing is refused with a security error,
+// the handler runs once with no principal and no scopes, whatever credentials and authorizer are around.
+func noRequirements(decl uint8) bool { return decl == declNone || decl == declAbsent }
 
 const (
 	modeRaw          = iota // scripted runtime.AuthenticatorFunc reading X-Out-<scheme>
@@ -794,6 +802,9 @@ func explain(k kase, o obs) string {
 	case o.kind == obsNoAuth:
 		return "the route reports no security requirements although the operation declares some"
 	}
+	if noRequirements(k.decl) {
+		return fmt.Sprintf("observed %s; the operation declares no requirements: it must run with no principal and no scopes (Authorize: nil, nil, nil)", o)
+	}
 	return fmt.Sprintf("observed %s; the text allows: %s", o, allowedFor(k, o).describe(k))
 }
 
@@ -830,8 +841,26 @@ func judge(k kase, o obs) (class string) {
 	if o.kind == obsPanic {
 		return "panic"
 	}
-	if k.decl == declNone {
-		return "" // the operation declares no requirements: the property does not speak
+	if noRequirements(k.decl) {
+		switch o.kind {
+		case obsNoAuth:
+			return ""
+		case obsRun:
+			if o.princ != 0 || o.princCtx != 0 || o.scopes != "" {
+				return "no-requirements/principal-or-scopes-out-of-nowhere"
+			}
+			if k.level == lvlHandler && o.handlerCalls != 1 {
+				return "handler-count"
+			}
+			return ""
+		case obsRefused:
+			return "no-requirements/refused-by-security"
+		default: // obsOther
+			if k.level == lvlHandler && k.rest != restFine && o.handlerCalls == 0 {
+				return ""
+			}
+			return "no-requirements/unexpected-outcome"
+		}
 	}
 	if o.kind == obsNoAuth {
 		return "requirements-ignored"
